@@ -124,7 +124,7 @@ class Session:
         t0 = time.time()
         ex = Explorer(timeout_ms=self.timeout_ms, seed=self.seed, max_paths=max_paths, logic=os.environ.get('VERIF_LOGIC'))
         sm = Summary()
-        _explore_into(sm, ex, harness, fuel, split_at=(jobs * 3 if jobs > 1 else None), dbg=dbg, name=name, t0=t0)
+        _explore_into(sm, ex, harness, fuel, split_at=(jobs if jobs > 1 else None), dbg=dbg, name=name, t0=t0)
         pend = getattr(ex, 'pending', [])
         if pend and not sm.error:
             import multiprocessing
